@@ -1,0 +1,101 @@
+//go:build verif
+
+// Contracts for the deductive verifier in /verif (govc). Comment-only.
+
+package replica
+
+//@ # ---- follower side of the replication channel (C08) --------------------------------------------------
+//@ # the follower's log is the queue of its partition; the index it reports back is what the leader treats as
+//@ # acknowledged when it equals the index of the request
+//@ stable partition.log
+//@ stable partition.closed
+//@ stable partition.statistics
+//@ predicate partOK(p *partition) bool = p.log != nil && p.closed != nil && p.statistics != nil && queue.QputOK(queue.FQqueue(p.log))
+//@ func partition.ReplicaLog
+//@   prop C08
+//@   requires partOK(p) && replicaIdx >= 1
+//@   modifies *
+//@   ensures[stores_at_the_leaders_position_or_not_at_all] (result1 == nil && replicaIdx == old(queue.Qapp(queue.FQqueue(p.log))) + 1 && !old(p.closed.val)) ==> (result0 == replicaIdx && queue.Qapp(queue.FQqueue(p.log)) == replicaIdx)
+//@   ensures[out_of_order_index_appends_nothing_and_reports_the_expected_one] (replicaIdx != old(queue.Qapp(queue.FQqueue(p.log))) + 1 && !old(p.closed.val)) ==> (result0 == old(queue.Qapp(queue.FQqueue(p.log))) + 1 && result1 == nil && queue.Qapp(queue.FQqueue(p.log)) == old(queue.Qapp(queue.FQqueue(p.log))))
+//@   ensures[a_failed_append_is_never_reported_as_the_requested_index] result1 != nil ==> (result0 != replicaIdx && queue.Qapp(queue.FQqueue(p.log)) == old(queue.Qapp(queue.FQqueue(p.log))))
+//@   ensures[reported_index_equals_the_request_only_if_appended_there] result0 == replicaIdx ==> queue.Qapp(queue.FQqueue(p.log)) == replicaIdx
+//@ end
+//@ func partition.ReplicaAckIndex
+//@   prop C08
+//@   requires p.log != nil && queue.QOK(queue.FQqueue(p.log))
+//@   ensures[acknowledges_exactly_what_is_appended] result == queue.Qapp(queue.FQqueue(p.log))
+//@ end
+
+//@ func partition.ResetReplicaIndex
+//@   prop C08
+//@   requires p.log != nil && typeis(p.log, "*queue.fanOutQueue")
+//@   modifies *
+//@   ensures[follower_restarts_at_the_position_the_leader_names] queue.Qapp(queue.FQqueue(p.log)) == idx - 1
+//@ end
+
+//@ # ---- leader side: a position counts as acknowledged by the follower only on a response whose ack index
+//@ # equals its replica index (which the follower sends only after appending, see partition.ReplicaLog) ------
+//@ ghost field github.com/lindb/lindb/proto/gen/v1/replica.ReplicaService_ReplicaClient.lastAck int64
+//@ ghost field github.com/lindb/lindb/proto/gen/v1/replica.ReplicaService_ReplicaClient.lastIdx int64
+//@ func github.com/lindb/lindb/proto/gen/v1/replica.ReplicaService_ReplicaClient.Send
+//@   modifies nothing
+//@ end
+//@ func github.com/lindb/lindb/proto/gen/v1/replica.ReplicaService_ReplicaClient.Recv
+//@   modifies self.lastAck, self.lastIdx
+//@   ensures result1 == nil ==> (result0 != nil && result0.AckIndex == self.lastAck && result0.ReplicaIndex == self.lastIdx)
+//@ end
+//@ func replicator.String
+//@   assume
+//@   modifies nothing
+//@ end
+//@ stable replicator.channel
+//@ stable ReplicatorChannel.ConsumerGroup
+//@ stable remoteReplicator.logger
+//@ stable remoteReplicator.statistics
+//@ func remoteReplicator.Replica
+//@   prop C08
+//@   requires r.channel != nil && r.channel.ConsumerGroup != nil && typeis(r.channel.ConsumerGroup, "*queue.consumerGroup") && cast(r.channel.ConsumerGroup, "*queue.consumerGroup").consumedSeq != nil && cast(r.channel.ConsumerGroup, "*queue.consumerGroup").acknowledgedSeq != nil && cast(r.channel.ConsumerGroup, "*queue.consumerGroup").consumedSeq != cast(r.channel.ConsumerGroup, "*queue.consumerGroup").acknowledgedSeq && r.replicaStream != nil && r.statistics != nil && r.logger != nil
+//@   modifies *
+//@   ensures[acknowledges_only_on_a_response_whose_indexes_agree] queue.CGack(r.channel.ConsumerGroup) != old(queue.CGack(r.channel.ConsumerGroup)) ==> (old(r.replicaStream).lastAck == old(r.replicaStream).lastIdx && queue.CGack(r.channel.ConsumerGroup) == old(r.replicaStream).lastAck)
+//@   ensures[never_beyond_what_was_sent] queue.CGack(r.channel.ConsumerGroup) != old(queue.CGack(r.channel.ConsumerGroup)) ==> queue.CGack(r.channel.ConsumerGroup) <= queue.CGcons(r.channel.ConsumerGroup)
+//@   ensures[send_position_untouched] queue.CGcons(r.channel.ConsumerGroup) == old(queue.CGcons(r.channel.ConsumerGroup))
+//@ end
+//@ func github.com/lindb/lindb/proto/gen/v1/replica.ReplicaServiceClient.GetReplicaAckIndex
+//@   modifies nothing
+//@   ensures result1 == nil ==> (result0 != nil && result0.AckIndex == self.fNext - 1)
+//@ end
+//@ ghost field github.com/lindb/lindb/proto/gen/v1/replica.ReplicaServiceClient.fNext int64
+//@ # resets: reset requests sent through this client handle since it was handed out
+//@ ghost field github.com/lindb/lindb/proto/gen/v1/replica.ReplicaServiceClient.resets int
+//@ func github.com/lindb/lindb/proto/gen/v1/replica.ReplicaServiceClient.Reset
+//@   modifies self.fNext, self.resets
+//@   ensures result1 == nil ==> self.fNext == in.AppendIndex
+//@   ensures self.resets == old(self.resets) + 1
+//@ end
+//@ func github.com/lindb/lindb/proto/gen/v1/replica.ReplicaService_ReplicaClient.CloseSend
+//@   modifies nothing
+//@ end
+//@ func github.com/lindb/lindb/rpc.ClientStreamFactory.CreateReplicaServiceClient
+//@   modifies any(protoReplicaV1.ReplicaServiceClient).resets
+//@   ensures result1 == nil ==> (result0 != nil && result0.resets == 0)
+//@ end
+//@ func github.com/lindb/lindb/coordinator/storage.StateManager.GetLiveNode
+//@   modifies nothing
+//@ end
+//@ stable remoteReplicator.cliFct
+//@ stable remoteReplicator.stateMgr
+//@ # other threads keep the replicator well formed while this one waits or calls out
+//@ shared remoteReplicator
+//@   invariant rrOK(self)
+//@ end
+//@ predicate rrOK(r *remoteReplicator) bool = r.channel != nil && r.channel.State != nil && r.channel.ConsumerGroup != nil && typeis(r.channel.ConsumerGroup, "*queue.consumerGroup") && cast(r.channel.ConsumerGroup, "*queue.consumerGroup").consumedSeq != nil && cast(r.channel.ConsumerGroup, "*queue.consumerGroup").acknowledgedSeq != nil && cast(r.channel.ConsumerGroup, "*queue.consumerGroup").consumedSeq != cast(r.channel.ConsumerGroup, "*queue.consumerGroup").acknowledgedSeq && cast(r.channel.ConsumerGroup, "*queue.consumerGroup").q != nil && typeis(cast(r.channel.ConsumerGroup, "*queue.consumerGroup").q, "*queue.fanOutQueue") && queue.FQqueue(cast(r.channel.ConsumerGroup, "*queue.consumerGroup").q) != nil && typeis(queue.FQqueue(cast(r.channel.ConsumerGroup, "*queue.consumerGroup").q), "*queue.queue") && cast(queue.FQqueue(cast(r.channel.ConsumerGroup, "*queue.consumerGroup").q), "*queue.queue").appendedSeq != nil && r.cliFct != nil && r.stateMgr != nil && r.logger != nil && r.statistics != nil && r.state.cur != nil && typeis(r.state.cur, "*state")
+//@ func remoteReplicator.IsReady
+//@   prop C08
+//@   paths
+//@   timeout 120
+//@   requires rrOK(r)
+//@   modifies *
+//@   ensures[resume_is_gap_free] (result && calls(r.stateMgr.GetLiveNode) == old(calls(r.stateMgr.GetLiveNode)) + 1 && calls(r.cliFct.CreateReplicaServiceClient) == old(calls(r.cliFct.CreateReplicaServiceClient)) + 1 && r.replicaCli != nil) ==> queue.CGcons(r.channel.ConsumerGroup) + 1 == r.replicaCli.fNext
+//@   ensures[a_follower_that_lost_its_log_restarts_at_the_first_unacknowledged_position] (result && calls(r.stateMgr.GetLiveNode) == old(calls(r.stateMgr.GetLiveNode)) + 1 && calls(r.cliFct.CreateReplicaServiceClient) == old(calls(r.cliFct.CreateReplicaServiceClient)) + 1 && r.replicaCli != nil && r.replicaCli.resets == 1) ==> r.replicaCli.fNext == queue.CGack(r.channel.ConsumerGroup) + 1
+//@   ensures rrOK(r)
+//@ end
